@@ -54,5 +54,10 @@ TEXTS = {
   "level": "exploration: for every start and every additional system reset the decoded downlink transcript must contain exactly the configured feature settings of connected boards (before SYS_ENABLE), one GO per connected track output (after it), exactly the configured initial values with the C09 encoding (after GO), nothing for nodes that are not connected configured boards, and consecutive sequence numbers restarting after the reset",
   "note": "multiset comparison with masked drive groups; tolerated traffic listed in the assumptions",
  },
+ "C19": {
+  "technique": "model-based property-based testing (rapidcheck): generated configurations (feature 0x03 absent / 0 / >0 per board), node trees and histories of occupancy reports (OCC/FREE/MULTIPLE/POSITION), own requests, answers, stall notices and time; oracle = per-node submission list (own requests + expected mirrors) vs decoded wire, with the two-sided flow model for the 'must be on the wire without a flush' obligation",
+  "level": "exploration: every report of a SecAck board must produce exactly one mirror with the same detector number and payload, in submission order, on the wire without any harness flush as soon as the node is not stalled and its budget has room (immediately when nothing blocks); boards without the feature and unknown nodes never receive a mirror type; at the end every mirror is out exactly once",
+  "note": "the simulated bus stops answering after startup so budgets fill up; only report layouts defined by the BiDiB specification are generated (bitmap base and size multiples of 8, 5-byte position reports); the harness flushes only directly after its own low-level sends",
+ },
 }
 NOT_YET = {}
